@@ -139,9 +139,18 @@ class Ref:
             else:
                 if o.kind == "L":
                     raise RefError("plain circuit cannot absorb a linear-mapped one")
-                # (clones of plain circuits share raw Parameter objects in the implementation; the
-                #  reference has no opinion about that representation – not generated in oracle mode)
-                raise RefError("unsupported in the reference: plain <- plain")
+                # plain circuits: every parametric gate is an independent positional slot.  Copying a whole
+                # plain circuit into a circuit that holds none of its slots is unproblematic; the same slot
+                # twice in one plain circuit is a representation question the reference has no opinion on
+                # (not generated in oracle mode).
+                if any(p in c.params for p in o.params) or o is c:
+                    raise RefError("unsupported in the reference: plain <- plain with shared slots")
+                for g in o.gates:
+                    qs = gate_qubits(g[1]) if g[0] == "f" else list(g[2])
+                    if any(q >= c.n for q in qs):
+                        raise RefError("index")
+                c.params.extend(o.params)
+                c.gates.extend(o.gates)
             return
         gates = src[1] if src[0] == "L" else src[2]
         if src[0] == "Q" and c.kind == "L" and src[1] != c.n:
